@@ -88,7 +88,7 @@ def router_cases(seed, count, max_side, tag, multi=False):
         g = gen.rand_grid(rng, max_side=max_side, kinds=("raster", "raster", "raster", "profile", "mesh"),
                           spacings=(1, 1, 2, 3, 5))
         n = gen.grid_size(g)
-        fam = rng.choice(["tied", "tied3", "distinct", "wide", "bowl", "sub", "huge", "neg", "flat", "cliff"])
+        fam = rng.choice(["tied", "tied3", "distinct", "wide", "bowl", "sub", "huge", "neg", "flat"] + (["cliff"] if multi else []))
         if multi and g["t"] in ("raster", "profile") and rng.random() < 0.35:
             g["sc"] = rng.choice([-10, -7, 9, 12])      # spacings of 1/1024 .. 4096 (times the integer spacing)
         if fam == "wide":
@@ -287,7 +287,7 @@ def snapshot_cases(seed, count, max_side, tag):
         yield flow_case("%s-%d-%d" % (tag, seed, i), g, steps)
 
 
-def parallel_cases(seed, count, max_side, tag, kinds=None, big=False):
+def parallel_cases(seed, count, max_side, tag, kinds=None, big=False, par_kernels_on_seq=0.0):
     """C10: the same inputs go through a sequential graph and through graphs whose single router /
     kernels use 2..16 threads; repeated updates pause / resume / resize the worker pool.  The
     specification ignores thread counts and kernel thresholds: all observations must coincide."""
@@ -324,6 +324,8 @@ def parallel_cases(seed, count, max_side, tag, kinds=None, big=False):
                 steps.append(dict(op="basins", g=gid))
                 for d in ("breadth", "any"):
                     kt = 1 if t == 1 else rng.choice([2, 3, 4, 7, t])
+                    if t == 1 and rng.random() < par_kernels_on_seq:
+                        kt = rng.choice([2, 3, 4])      # sequential router, parallel kernels (the kernel pool is the first to start)
                     steps.append(dict(op="kernel", g=gid, dir=d, thr=kt, minblock=rng.choice([0, 0, 1, 2, 5]),
                                       minlevel=rng.choice([0, 0, 1, 3, 6]), init=rng.choice([0, 1])))
                 if t == 1:
